@@ -613,6 +613,43 @@ def gen_skeletons(srcs):
     out.append("  [" + ";\n   ".join('("%s"%%string, "%s"%%string, [%s])' % (k, f, "; ".join('"%s"%%string' % c for c in cs)) for k, f, cs in items) + "].")
     return "\n".join(out)
 
+# ------------------------------------------------------------------ every function of lib.rs / traits.rs: all its calls
+ALL_CALLS = re.compile(r'\b([A-Za-z_][A-Za-z0-9_]*)\s*(?:::<[^>]*>)?\s*(?:\(|!\s*[(\[{])')
+NOT_CALLS = {'if', 'while', 'for', 'match', 'return', 'loop', 'fn', 'let', 'unsafe', 'move', 'in', 'as', 'else', 'impl', 'where', 'debug_assert', 'debug_assert_eq'}
+def gen_wrappers(srcs):
+    """(file, fn#occurrence, [every called name, in textual order]) for every function with a body in lib.rs and traits.rs:
+    the delegation structure of the public API and the trait impls (which wrapper calls which core function)"""
+    items = []
+    for key in ('lib', 'traits'):
+        src = strip_cfg_verif(srcs[key])
+        seen = {}
+        for m in re.finditer(r'\bfn\s+([A-Za-z_][A-Za-z0-9_]*)', src):
+            name = m.group(1)
+            if name.startswith('verif_') or name.startswith('__verif'):
+                continue
+            occ = seen.get(name, 0); seen[name] = occ + 1
+            # a declaration without a body (trait method) has `;` before `{`
+            k = m.end()
+            depth = 0
+            has_body = None
+            while k < len(src):
+                c = src[k]
+                if c in '(<[': depth += 1
+                elif c in ')]': depth -= 1
+                elif c == '>' and src[k - 1] != '-': depth -= 1
+                elif c == ';' and depth <= 0: has_body = False; break
+                elif c == '{' and depth <= 0: has_body = True; break
+                k += 1
+            if not has_body:
+                continue
+            body = strip_debug_asserts(src[k + 1:match_brace(src, k) - 1])
+            calls = [c.group(1) for c in ALL_CALLS.finditer(body) if c.group(1) not in NOT_CALLS]
+            items.append((key, '%s#%d' % (name, occ), calls))
+    out = ["(* ---- every function of lib.rs and traits.rs with the names it calls, in textual order ---- *)",
+           "Definition wrappers : list (string * string * list string) :=",
+           "  [" + ";\n   ".join('("%s"%%string, "%s"%%string, [%s])' % (k, f, "; ".join('"%s"%%string' % c for c in cs)) for k, f, cs in items) + "]."]
+    return "\n".join(out)
+
 def main():
     repo, outp = sys.argv[1], sys.argv[2]
     rd = lambda p: open(os.path.join(repo, p)).read()
@@ -633,6 +670,7 @@ def main():
         parts.append(o)
         parts.append(gen_digits(raw['num']))
         parts.append(gen_skeletons(srcs))
+        parts.append(gen_wrappers(srcs))
     except TranslationError as e:
         sys.stderr.write(f"translate.py: TRANSLATION FAILED: {e}\n")
         sys.exit(3)
